@@ -637,6 +637,12 @@ func opqOf(cls, id int) any {
 		v = new(**int)
 	case 26: // non-nil pointer to a nil *Condition
 		v = new(*stackage.Condition)
+	case 27: // typed nil pointer to a type whose String method has a value receiver
+		v = (*Strg)(nil)
+	case 28: // zero-valued struct whose String method is promoted from an embedded nil interface
+		v = struct{ fmt.Stringer }{}
+	case 29: // zero-valued struct whose String method is promoted from an embedded nil pointer
+		v = struct{ *Strg }{}
 	default:
 		v = &Opq{Cls: cls, ID: id}
 	}
@@ -678,6 +684,17 @@ func Build(v V) any {
 	case 'O':
 		return opOf(v.Op)
 	case 'K':
+		if shareCache != nil && v.Form == "n" {
+			// identical sub-literals are built once and the one instance is used at every position (object sharing:
+			// what a tree means does not depend on it)
+			key := v.String()
+			if s, ok := shareCache[key]; ok {
+				return s
+			}
+			s := BuildStack(v)
+			shareCache[key] = s
+			return s
+		}
 		return wrapStack(BuildStack(v), v.Form)
 	case 'C':
 		return wrapCond(BuildCond(v), v.Form)
@@ -696,6 +713,9 @@ func Build(v V) any {
 	}
 	panic("bad V")
 }
+
+// shareCache, when non-nil, makes Build share one instance among identical native Stack sub-literals (stream roundtrip)
+var shareCache map[string]stackage.Stack
 
 func BuildStack(v V) stackage.Stack {
 	s := newStack(v.Cfg.Kind, v.Cfg.Cap)
